@@ -269,6 +269,7 @@ func (in *Interp) hardArith(ts []*Term) bool {
 	seen := map[int]bool{}
 	var stack []*Term
 	stack = append(stack, ts...)
+	constMuls := 0
 	for len(stack) > 0 {
 		t := stack[len(stack)-1]
 		stack = stack[:len(stack)-1]
@@ -284,6 +285,14 @@ func (in *Interp) hardArith(ts []*Term) bool {
 		case OpMul:
 			if t.w >= 32 && !t.a.IsConst() && !t.b.IsConst() {
 				return true
+			}
+			if t.w >= 32 && in.tb.rangeOf(t).hi > 1<<16 {
+				// chains of wide multiplications by constants (Horner evaluation of a long digit string) stall
+				// bit-blasting as well once they are a few levels deep; products known to stay small do not
+				constMuls++
+				if constMuls >= 3 {
+					return true
+				}
 			}
 		}
 		stack = append(stack, t.a, t.b, t.c)
